@@ -76,12 +76,17 @@ PLAN = {
              "not finish two calls); 'states in group order' is proved as a count, not per entry; 'reported system time is the FRMW answer' is not stated",
     ),
     "C18": dict(
-        verus=["dc_arith", "group_cycle"], kani=[], level="proof",
-        claim="tx_rx_dc extracted whole (Verus): the returned CycleInfo satisfies cycle_start_offset = dc_system_time mod period and next_cycle_wait = "
+        verus=["dc_arith", "dc_sync", "group_cycle"], kani=[], level="proof",
+        claim="configure_dc_sync from the device filter to the end of the per-device loop as ONE fragment (Verus, any group, any reference time): exactly the devices with DC "
+              "support and a DcSync other than Disabled are programmed (the filter closure is proved to decide that predicate), each is sent 0 to 0x0981, a start time to 0x0990 "
+              "that is a multiple of the period in (t+d-p, t+d], the period to 0x09A0, for Sync01 its SYNC1 period to 0x09A4, and activation flags 0x03 (Sync0) resp. 0x07 "
+              "(Sync01) to 0x0981, all against ONE reading t of the reference clock; periods / delays beyond u32 nanoseconds end in an error; the period handed to the cycle "
+              "arithmetic is the configured one. tx_rx_dc extracted whole (Verus): the returned CycleInfo satisfies cycle_start_offset = dc_system_time mod period and next_cycle_wait = "
               "(period - offset) + shift, without overflow, for every time value; plus the two arithmetic fragments, verbatim from configure_dc_sync and tx_rx_dc (Verus, unbounded): SYNC0 start time is a multiple of the period in "
               "(t+d-p, t+d] for all 1<=p<=u32::MAX, d<=u32::MAX; cycle offset = time mod period and wait = (period-offset)+shift without overflow for every u64 time",
-        note="assumes t+d representable in u64 and shift <= 2^33; period 0 is outside the quantifier (division by zero, noted as D19). The u32 range checks, "
-             "the register write order / activation flags and the 'only DC devices that asked for it' filter live in the surrounding async fns and are NOT decided",
+        note="assumes t+d representable in u64 and shift <= 2^33; period 0 is outside the quantifier (division by zero, noted as D19). NOT decided: the ORDER of the register writes "
+             "and 'no other register / device is written' (effects are observed through positive predicates only), the NoReference error in front of the fragment, the static "
+             "drift compensation loop",
     ),
     "C19": dict(
         verus=[], kani=["@wire"], level="translation_validation",
